@@ -239,7 +239,7 @@ def run(ctx, res):
                         if d[1] == "t":
                             ctor = callee_names(d[2])[0]
                 cfgs[(b.owner.split("file_or_mem_buf::")[-1], where(b, bi))] = (names[0].rsplit("::", 1)[-1], ctor)
-    res.floor("tmpfile_codec_sites", len(cfgs), 3)
+    res.need("R19.codec", "tmpfile_codec_sites", len(cfgs), 3, "temp-file encode/decode sites (write_chunk, Iter::next, ChunkIter::next)")
     ctors = {v[1] for v in cfgs.values()}
     kinds = {v[0] for v in cfgs.values()}
     if len(ctors) == 1 and None not in ctors and kinds >= {"encode_into_std_write", "decode_from_std_read"}:
@@ -300,7 +300,7 @@ def run(ctx, res):
                 for a in t["args"]:
                     if a["k"] != "const" and a["p"]["l"] == n[1] and "Path" in b.locals[n[1]]["ty"]:
                         probs.append((b, bi, "the Some/None state of Context.tmp_dir is inspected outside FileOrMemBuf::new"))
-    res.floor("tmp_dir_uses", n_use, 4)
+    res.floor("tmp_dir_uses", n_use, 1)
     if probs:
         seen = set()
         for b, bi, m in probs:
